@@ -23,12 +23,13 @@ ItemOf(id) == Items[CHOOSE i \in 1..Len(Items) : Items[i].id = id]
 
 TInit == l = 1 /\ eph = <<>> /\ dig = <<>> /\ TLCSet(1, 1)
 
-PropOfFamily(f) == CASE f = "ep" -> "C06" [] f = "pt" -> "C13" [] f = "fw" -> "C17" [] f = "gen" -> "C15" [] OTHER -> "C13"
+PropOfFamily(f) == CASE f = "ep" -> "C06" [] f = "pt" -> "C13" [] f = "fw" -> "C17" [] f = "gen" -> "C15" [] f = "rule" -> "C18" [] OTHER -> "C13"
 
 (* ---- C06 ---------------------------------------------------------------- *)
 EpNames(e) == {e.entry_points[i].n : i \in 1..Len(e.entry_points)}
 EpKey(it, n) == <<it.twin, n>>
 EpChecks(it, e) ==
+    /\ Chk("C14", "entry_point_set_does_not_depend_on_the_order_of_override_attributes", l, EpNames(e) = ExpectedEntryPoints(it))
     /\ Chk("C06", "entry_points_are_defaults_plus_declared_minus_overridden", l, EpNames(e) = ExpectedEntryPoints(it))
     /\ Chk("C06", "each_entry_point_emitted_once", l, Len(e.entry_points) = Cardinality(EpNames(e)))
     /\ Chk("C06", "overriding_a_kind_does_not_alter_another_entry_point", l,
@@ -71,7 +72,10 @@ TrExpand ==
     /\ LET known == Known(E.id)
            fam == IF known THEN ItemOf(E.id).family ELSE "real"
            prop == PropOfFamily(fam)
-       IN /\ Chk(prop, "a_valid_item_expands_without_diagnostic_or_crash", l, known => (E.verdict = "clean" /\ E.parsed))
+           expectClean == known /\ ItemOf(E.id).expect = "clean"
+       IN /\ Chk(prop, "a_valid_item_expands_without_diagnostic_or_crash", l, expectClean => (E.verdict = "clean" /\ E.parsed))
+          /\ Chk("C18", "an_item_breaking_a_documented_rule_is_rejected_with_a_diagnostic", l,
+                 (known /\ ItemOf(E.id).expect = "dirty") => E.verdict = "dirty")
           /\ Chk("C13", "expansion_never_crashes", l, E.verdict # "crash")
           /\ Chk("C13", "expanding_twice_in_one_process_gives_identical_output", l, E.deterministic)
           /\ Chk("C13", "expanding_in_another_process_gives_identical_output", l,
